@@ -6,6 +6,7 @@ import (
 	"reflect"
 	"regexp"
 	"sort"
+	"strconv"
 	"strings"
 	"sync"
 
@@ -490,7 +491,20 @@ func (n NamesSlice) GetSorted() NamesSlice {
 type hashableNamesSlice string
 
 func newHashableNamesSlice(n NamesSlice) hashableNamesSlice {
-	return hashableNamesSlice(n.String())
+	return hashableNamesSlice(n.bucketKey())
+}
+
+// bucketKey returns the text a set files tuples with these (sorted) names under.
+// Every name is quoted, so two different lists of names never share a key, and the
+// key cannot be mistaken for the name of a Go type used as the key of another bucket.
+func (n NamesSlice) bucketKey() string {
+	var sb strings.Builder
+	sb.WriteString("names:")
+	for _, name := range n {
+		sb.WriteString(strconv.Quote(name))
+		sb.WriteByte(',')
+	}
+	return sb.String()
 }
 
 func (s hashableNamesSlice) String() string {
